@@ -26,6 +26,18 @@ const (
 	callTimeout = 2 * time.Second
 )
 
+// calls that never return are deterministic here (a blocked AddSelector); after three of
+// them the watchdog stops waiting the full two seconds so that a broken build still gets
+// its verdict in reasonable time
+var stuckSeen int
+
+func watchdog() time.Duration {
+	if stuckSeen >= 3 {
+		return 200 * time.Millisecond
+	}
+	return callTimeout
+}
+
 type item struct{ c, v int64 }
 
 type hchan struct {
@@ -171,50 +183,66 @@ func (w *sworld) wouldBlock(s snapshot) bool {
 
 func (w *sworld) validUser(c int64) bool { return c > 0 && int(c) < len(w.chans) }
 
-// within runs f on its own goroutine and reports whether it returned in time.
-func within(f func()) bool {
-	done := make(chan struct{})
+// within runs f on its own goroutine and reports how it ended.
+const (
+	returned = iota
+	stuckCall
+	panicked
+)
+
+func within(f func()) int {
+	done := make(chan int, 1)
 	go func() {
-		defer close(done)
+		defer func() {
+			if recover() != nil {
+				done <- panicked
+			}
+		}()
 		f()
+		done <- returned
 	}()
 	select {
-	case <-done:
-		return true
-	case <-time.After(callTimeout):
-		return false
+	case r := <-done:
+		return r
+	case <-time.After(watchdog()):
+		stuckSeen++
+		return stuckCall
 	}
 }
 
-func (w *sworld) register(c int64) bool {
+// record decodes whatever a handler was given: a value is identified by the channel it was
+// SENT on, so a handler that is run for another selector's channel shows up as such.
+func (w *sworld) record(k, c int64, sc *sche.Sche, v reflect.Value, recvOk bool) {
+	if !recvOk {
+		w.last = &ran{k: k, c: c, ok: false}
+		return
+	}
+	switch x := v.Interface().(type) {
+	case item:
+		w.last = &ran{k: k, c: x.c, v: x.v, ok: true}
+	case *sche.RunTask:
+		w.posted = nil
+		if sc == nil {
+			sc = sche.NewSche() // foreign task: run it anyway to learn where it came from
+		}
+		sc.DoTask(x)
+		if w.posted != nil {
+			w.last = &ran{k: k, c: w.posted.c, v: w.posted.v, ok: true}
+		} else {
+			w.last = &ran{k: k, c: -1, ok: true}
+		}
+	default:
+		w.last = &ran{k: k, c: -1, ok: true}
+	}
+}
+
+func (w *sworld) register(c int64) int {
 	k := int64(len(w.selChan))
 	h := w.chans[c]
-	var fn sche.SelectorFunc
-	if h.sc != nil {
-		// the handler runservice.RunService.addSchedulerSelector installs
-		sc := h.sc
-		fn = func(v reflect.Value, recvOk bool) {
-			if !recvOk {
-				w.last = &ran{k: k, c: c, ok: false}
-				return
-			}
-			task := v.Interface().(*sche.RunTask)
-			w.posted = nil
-			sc.DoTask(task)
-			if w.posted != nil {
-				w.last = &ran{k: k, c: w.posted.c, v: w.posted.v, ok: true}
-			}
-		}
-	} else {
-		fn = func(v reflect.Value, recvOk bool) {
-			if !recvOk {
-				w.last = &ran{k: k, c: c, ok: false}
-				return
-			}
-			it := v.Interface().(item)
-			w.last = &ran{k: k, c: it.c, v: it.v, ok: true}
-		}
-	}
+	// for a scheduler this is the handler runservice.RunService.addSchedulerSelector installs
+	// (return on !recvOk, else scheduler.DoTask(task)), plus the recording
+	sc := h.sc
+	fn := func(v reflect.Value, recvOk bool) { w.record(k, c, sc, v, recvOk) }
 	w.selChan = append(w.selChan, c)
 	return within(func() { w.ms.AddSelector(fmt.Sprintf("s%d", k), sche.NewFuncSelector(h.rv(), fn)) })
 }
@@ -237,7 +265,7 @@ func execScript(ops []hx.T) (outOps []hx.T, obs []any, nontrivial bool) {
 	for _, o := range ops {
 		var ev any = "EUnit"
 		emit := o
-		stuck := false
+		end := returned
 		switch o.Name {
 		case "ONewChan":
 			n := o.Int(0)
@@ -258,9 +286,7 @@ func execScript(ops []hx.T) (outOps []hx.T, obs []any, nontrivial bool) {
 				ev = "EBad"
 				break
 			}
-			if !w.register(c) {
-				stuck = true
-			}
+			end = w.register(c)
 		case "OSend":
 			c, v := o.Int(0), o.Int(1)
 			if !w.validUser(c) {
@@ -273,8 +299,7 @@ func execScript(ops []hx.T) (outOps []hx.T, obs []any, nontrivial bool) {
 				break
 			}
 			before := h.length()
-			if !within(func() { w.send(c, v) }) {
-				stuck = true
+			if end = within(func() { w.send(c, v) }); end != returned {
 				break
 			}
 			ev = hx.C("ESent", h.length() == before+1)
@@ -304,8 +329,7 @@ func execScript(ops []hx.T) (outOps []hx.T, obs []any, nontrivial bool) {
 				break
 			}
 			w.last = nil
-			if !within(func() { w.ms.HandleOnce() }) {
-				stuck = true
+			if end = within(func() { w.ms.HandleOnce() }); end != returned {
 				break
 			}
 			switch {
@@ -331,8 +355,13 @@ func execScript(ops []hx.T) (outOps []hx.T, obs []any, nontrivial bool) {
 			panic("c04: unknown op " + o.Name)
 		}
 		outOps = append(outOps, emit)
-		if stuck {
-			obs = append(obs, hx.C("Ob", "EStuck", hx.C("Snap", false, []any{}, []any{}, []any{}, []any{})))
+		if end != returned {
+			// the selector may be left locked: the case ends here
+			what := "EStuck"
+			if end == panicked {
+				what = "EPanic"
+			}
+			obs = append(obs, hx.C("Ob", what, hx.C("Snap", false, []any{}, []any{}, []any{}, []any{})))
 			return
 		}
 		obs = append(obs, hx.C("Ob", ev, w.snap().term()))
